@@ -88,17 +88,19 @@ structure OUnit where
   last : Nat
   deriving DecidableEq, Repr, Inhabited
 
+/-- the OBU an element belongs to: the open one continued, or a new one -/
+def extend (op : Option OUnit) (e : Elem) : OUnit :=
+  match (if e.contPrev then op else none) with
+  | some u => { u with bytes := u.bytes ++ e.bytes, last := e.pkt }
+  | none => ⟨e.bytes, e.pkt, e.pkt⟩
+
 /-- join fragments across Y → Z.  `op` is the OBU still open (its last element had Y).  An element
     that does not announce itself as a continuation starts a new OBU (an open one is then
     abandoned); an open OBU at the very end is abandoned as well. -/
 def joinElems : Option OUnit → List Elem → List OUnit
   | _, [] => []
   | op, e :: es =>
-    let cur : OUnit :=
-      match (if e.contPrev then op else none) with
-      | some u => { u with bytes := u.bytes ++ e.bytes, last := e.pkt }
-      | none => ⟨e.bytes, e.pkt, e.pkt⟩
-    if e.contNext then joinElems (some cur) es else cur :: joinElems none es
+    if e.contNext then joinElems (some (extend op e)) es else extend op e :: joinElems none es
 
 def parseAll (ps : List Bytes) : Option (List Packet) := ps.mapM parsePacket
 
